@@ -66,8 +66,11 @@ struct St {
     cret: u64,
     perturb_seed: u64,
     perturb_pct: u64,
-    /// the caller has returned from dropping the pool (tasks of kind 9 / 10 wait for this)
-    drop_returned: bool,
+    /// the caller has begun to drop the pool (tasks of kind 9 / 10 run until then) / number of start() calls begun
+    /// (tasks of kind 7 / 8 wait for the next one).  Set by the caller thread itself just BEFORE the call, so that a
+    /// task never waits for something that may in turn be waiting for the task.
+    drop_called: bool,
+    starts_called: i64,
     /// more than MAX_EVENTS points reported in one run: some thread is spinning (livelock); recording stops
     flood: bool,
 }
@@ -211,6 +214,17 @@ fn driver_event(name: &'static str, a: i64, b: i64) {
     st.events.push(Ev { seq, th: DRIVER, g, ev: name, a, b });
 }
 
+/// Records written by the caller thread itself around every call of the pool's API (a = 0 new, 1 start,
+/// 2 execute, 3 stop, 4 drop; b = argument).  They do not depend on any hook inside the pool: the
+/// property-level judge (Trace_PoolProp) works from these, the task bodies' own records and the driver's.
+fn caller_event(name: &'static str, a: i64, b: i64) {
+    let mut st = lock();
+    st.seq += 1;
+    let seq = st.seq;
+    let g = st.cur_gen;
+    st.events.push(Ev { seq, th: CALLER, g, ev: name, a, b });
+}
+
 fn live_workers() -> usize {
     let mut n = 0;
     if let Ok(rd) = std::fs::read_dir("/proc/self/task") {
@@ -243,9 +257,10 @@ fn total_threads() -> usize {
 /// get there: "up to N tasks run at the same time"); gives up after the escalating waits and reports
 /// Barrier_Timeout, which no action of the model explains,
 /// 7 / 8: wait until start() has been called `work` times (a task that spans a restart), then panic / return,
-/// 9 / 10: keep running until the caller has returned from drop() (so stop() and drop() happen while this task
-/// runs and the ones behind it are queued; if either waited for the task this would never end), then return / panic
-/// (10: a panic that arrives after Drop has taken the handles)
+/// 9 / 10: keep running until the caller has begun drop() and a little longer (so stop() is called and drop() begins
+/// while this task runs and the ones behind it are queued), then return / panic (10: a panic that arrives while or
+/// after Drop takes the handles).  The task does NOT wait for drop() to return: the statement allows a drop() that
+/// waits for running tasks, it only forbids blocking for ever.
 fn panics(kind: u8) -> bool {
     matches!(kind, 1 | 4 | 5 | 7 | 10)
 }
@@ -297,20 +312,18 @@ fn make_task(t: i64, kind: u8, work: u64, c: Arc<Counters>) -> impl FnOnce() + S
             7 | 8 => {
                 let t0 = Instant::now();
                 let total: u64 = WAITS.iter().sum();
-                while lock().cur_gen < work as i64 && t0.elapsed() < Duration::from_secs(total) {
+                while lock().starts_called < work as i64 && t0.elapsed() < Duration::from_secs(total) {
                     std::thread::sleep(Duration::from_micros(50));
                 }
+                std::thread::sleep(Duration::from_micros(300)); // let the restart get under way
             }
             9 | 10 => {
                 let t0 = Instant::now();
                 let total: u64 = WAITS.iter().sum();
-                while !lock().drop_returned {
-                    if t0.elapsed() > Duration::from_secs(total + 2) {
-                        record("Wait_Timeout", t, 0); // no action of the model explains this
-                        break;
-                    }
+                while !lock().drop_called && t0.elapsed() < Duration::from_secs(total) {
                     std::thread::sleep(Duration::from_micros(50));
                 }
+                std::thread::sleep(Duration::from_micros(500)); // drop() is under way (it may or may not wait for us)
             }
             _ => {}
         }
@@ -349,15 +362,28 @@ fn spawn_caller(c: Arc<Counters>, kinds: Arc<Vec<u8>>) -> (Sender<Cmd>, std::thr
                         }
                         pool = Some(p);
                     }
-                    Cmd::Start => pool.as_mut().unwrap().start(),
+                    Cmd::Start => {
+                        lock().starts_called += 1;
+                        caller_event("C_Call", 1, 0);
+                        pool.as_mut().unwrap().start();
+                        caller_event("C_Ret", 1, 0);
+                    }
                     Cmd::Exec(t, kind, work) => {
                         lock().cur_task = t;
+                        caller_event("C_Call", 2, t);
                         pool.as_ref().unwrap().execute(make_task(t, kind, work, c.clone()));
+                        caller_event("C_Ret", 2, t);
                     }
-                    Cmd::Stop => pool.as_mut().unwrap().stop(),
+                    Cmd::Stop => {
+                        caller_event("C_Call", 3, 0);
+                        pool.as_mut().unwrap().stop();
+                        caller_event("C_Ret", 3, 0);
+                    }
                     Cmd::Drop => {
+                        lock().drop_called = true;
+                        caller_event("C_Call", 4, 0);
                         drop(pool.take());
-                        lock().drop_returned = true;
+                        caller_event("C_Ret", 4, 0);
                     }
                     Cmd::Pause(us) => std::thread::sleep(Duration::from_micros(us)),
                     Cmd::Yield => std::thread::yield_now(),
@@ -407,19 +433,21 @@ fn wait_until<F: FnMut(&mut St) -> bool>(mut pred: F) -> Result<(), u64> {
 }
 
 /// After drop has returned and the caller thread has been joined: wait until every submitted task has been
-/// entered (the bodies count that themselves), every panic has been followed by a respawn whose new thread
-/// has shown up, and only the `expected` threads (main + detached recovery threads) are left in /proc.
-fn wait_quiescent(expected: usize, submitted: usize, c: &Counters) -> Result<(), (usize, u64)> {
+/// entered (the bodies count that themselves) and at most the `allowed` threads are left in /proc (main + one
+/// service thread per start(): the recovery threads, which are not worker threads and may stay or go).  That is
+/// the property's own criterion and uses no hook.  In addition - only to keep the hook log of this run complete,
+/// and only for a bounded time - wait until every reported panic has been followed by a reported respawn whose
+/// new thread has shown up (Rec_Respawn is reported just before the thread is created).
+fn wait_quiescent(allowed: usize, submitted: usize, c: &Counters) -> Result<(), (usize, u64)> {
     let t0 = Instant::now();
     let total: u64 = WAITS.iter().sum();
     let mut stable = 0;
+    let mut settled_at: Option<Instant> = None;
     loop {
-        // every panic has been followed by a respawn and every respawned worker has reported from its new
-        // thread (Rec_Respawn is reported just before the thread is created)
         let recovered = {
             let st = lock();
             if st.flood {
-                return Err((total_threads().saturating_sub(expected), t0.elapsed().as_secs()));
+                return Err((total_threads().saturating_sub(allowed), t0.elapsed().as_secs()));
             }
             let markers = st.events.iter().filter(|e| e.ev == "Marker_Send").count();
             let respawns = st.events.iter().filter(|e| e.ev == "Rec_Respawn").count();
@@ -428,16 +456,20 @@ fn wait_quiescent(expected: usize, submitted: usize, c: &Counters) -> Result<(),
         };
         let entered = (1..=submitted).all(|t| c.ran(t) >= 1);
         let threads = total_threads();
-        if threads == expected && recovered && entered {
-            stable += 1;
-            if stable >= 2 {
-                return Ok(());
+        if threads <= allowed && entered {
+            let since = *settled_at.get_or_insert_with(Instant::now);
+            if recovered || since.elapsed() > Duration::from_secs(3) {
+                stable += 1;
+                if stable >= 2 {
+                    return Ok(());
+                }
             }
         } else {
             stable = 0;
+            settled_at = None;
         }
         if t0.elapsed() > Duration::from_secs(total) {
-            return Err((threads.saturating_sub(expected), t0.elapsed().as_secs()));
+            return Err((threads.saturating_sub(allowed), t0.elapsed().as_secs()));
         }
         std::thread::sleep(Duration::from_micros(100));
     }
@@ -458,7 +490,8 @@ fn reset_state(gated: bool, perturb_seed: u64, perturb_pct: u64) {
     st.perturb_seed = perturb_seed;
     st.perturb_pct = perturb_pct;
     st.flood = false;
-    st.drop_returned = false;
+    st.drop_called = false;
+    st.starts_called = 0;
 }
 
 fn flush_run(out: &mut std::fs::File, n: usize, tasks: usize, pan: &[i64]) {
@@ -530,7 +563,10 @@ fn random_mode(args: &[String]) {
         };
         // one run in eight: exactly n tasks that all wait for each other - only n-fold parallelism gets them through
         let barrier_run = segments == 1 && !scale && rng.chance(1, 8);
-        let tasks = if barrier_run { n } else { tasks };
+        // half of them first submit up to n panicking tasks: the barrier then also shows that the pool is back
+        // to n usable workers after the panics (without looking at any hook)
+        let barrier_prefix = if barrier_run && rng.chance(1, 2) { rng.range(1, n) } else { 0 };
+        let tasks = if barrier_run { barrier_prefix + n } else { tasks };
         let panic_pct = *rng.pick(&[0usize, 0, 10, 25, 50, 100]);
         let mut kinds: Vec<u8> = vec![0; tasks + 1];
         let mut works: Vec<u64> = vec![0; tasks + 1];
@@ -547,7 +583,7 @@ fn random_mode(args: &[String]) {
             };
             works[t] = rng.range(1, 300) as u64;
             if barrier_run {
-                kinds[t] = 6;
+                kinds[t] = if t <= barrier_prefix { 1 } else { 6 };
             }
         }
         // which segment each task is submitted in (non-decreasing); in a segment that is followed by another
@@ -714,7 +750,7 @@ fn random_mode(args: &[String]) {
         }
         // exact counts from the task bodies themselves: entered exactly once, returned exactly once unless it panics
         let entered = (1..=tasks).filter(|t| counters.ran(*t) == 1 && counters.done(*t) == if panics(kinds[*t]) { 0 } else { 1 }).count();
-        driver_event("Quiesced", entered as i64, live_workers() as i64);
+        driver_event("Quiesced", entered as i64, total_threads().saturating_sub(1 + recovery_threads) as i64);
         flush_run(&mut out, n, tasks, &pan);
         let nev = lock().events.len();
         if tasks > 0 {
@@ -817,7 +853,7 @@ struct Proj {
     done: Vec<i64>,
 }
 
-fn run_behaviour(id: i64, b: &Value, out: &mut std::fs::File, recovery_threads: &mut usize) -> Value {
+fn run_behaviour(id: i64, b: &Value, out: &mut std::fs::File, div: &mut std::fs::File, recovery_threads: &mut usize) -> Value {
     let n = b["n"].as_u64().unwrap() as usize;
     let tasks = b["tasks"].as_u64().unwrap() as usize;
     let pan_flags: Vec<bool> = b["pan"].as_array().unwrap().iter().map(|x| x.as_bool().unwrap()).collect();
@@ -996,72 +1032,93 @@ fn run_behaviour(id: i64, b: &Value, out: &mut std::fs::File, recovery_threads: 
         done_steps = i + 1;
     }
 
-    if fail.is_none() {
-        // leave gated mode: every parked thread goes on by itself
-        {
-            let mut st = lock();
-            st.gated = false;
-            hh().cv.notify_all();
-        }
-        if !complete {
-            // finish the lifecycle freely; the rest of the run is judged by the trace validation
-            match last_cpc.as_str() {
-                "new" | "stopped" => send(Cmd::Drop, &mut sent),
-                "started" => {
-                    let with_stop = match b["finish"].as_str() {
-                        Some("stop") => true,
-                        Some("drop") => false,
-                        _ => id % 2 == 0,
-                    };
-                    if with_stop {
-                        send(Cmd::Stop, &mut sent);
-                    }
+    // Leave gated mode: every parked thread goes on by itself.  This is also done when the real code did not
+    // follow the model's schedule (a divergence): the rest of the lifecycle is then run freely, and whether the
+    // run as a whole satisfies the property is decided from its log by the property-level judge.
+    let diverged = fail.take();
+    {
+        let mut st = lock();
+        st.gated = false;
+        hh().cv.notify_all();
+    }
+    let mut drop_sent = steps.iter().take(done_steps + if diverged.is_some() { 1 } else { 0 }).any(|s| s["a"] == "Pool_DropBegin");
+    if diverged.is_some() {
+        for s in steps.iter().skip(done_steps + 1) {
+            let x = s["x"].as_i64().unwrap_or(0);
+            match s["a"].as_str().unwrap_or("") {
+                "Pool_Start" => {
+                    *recovery_threads += 1;
+                    send(Cmd::Start, &mut sent);
+                }
+                "Pool_Execute" => send(Cmd::Exec(x, kinds[x as usize], 0), &mut sent),
+                "Pool_Stop" => send(Cmd::Stop, &mut sent),
+                "Pool_DropBegin" => {
                     send(Cmd::Drop, &mut sent);
+                    drop_sent = true;
                 }
                 _ => {}
             }
         }
-        let target = sent;
-        if let Err(waited) = wait_until(|st| st.cret >= target) {
-            fail = Some(json!({"kind": "hang", "step": done_steps, "action": "finish", "detail": format!("drop() did not return after {} s", waited)}));
-        } else if let Err((live, waited)) = {
-            drop(tx);
-            caller.take().map(|c| c.join().ok());
-            let submitted = lock().events.iter().filter(|e| e.ev == "Pool_Execute").count();
-            wait_quiescent(1 + *recovery_threads, submitted, &counters)
-        } {
-            fail = Some(json!({"kind": "hang", "step": done_steps, "action": "exit", "detail": format!("{} worker thread(s) still alive {} s after drop() returned", live, waited)}));
-        } else {
-            // the real counters (incremented by the task bodies themselves)
-            let submitted = lock().events.iter().filter(|e| e.ev == "Pool_Execute").count();
-            for t in 1..=submitted {
-                let ok = counters.ran(t) == 1 && (pan_flags[t - 1] && counters.done(t) == 0 || !pan_flags[t - 1] && counters.done(t) == 1);
-                if !ok {
-                    fail = Some(json!({"kind": "counters", "step": done_steps, "action": "end",
-                                       "detail": format!("task {} entered {} times, returned {} times", t, counters.ran(t), counters.done(t))}));
-                    break;
+        if !drop_sent {
+            send(Cmd::Drop, &mut sent);
+        }
+    } else if !complete {
+        // finish the lifecycle freely; the rest of the run is judged by the trace validation
+        match last_cpc.as_str() {
+            "new" | "stopped" => send(Cmd::Drop, &mut sent),
+            "started" => {
+                let with_stop = match b["finish"].as_str() {
+                    Some("stop") => true,
+                    Some("drop") => false,
+                    _ => id % 2 == 0,
+                };
+                if with_stop {
+                    send(Cmd::Stop, &mut sent);
                 }
+                send(Cmd::Drop, &mut sent);
             }
-            if fail.is_none() {
-                let entered = (1..=tasks).filter(|t| counters.ran(*t) == 1 && counters.done(*t) == if pan_flags[*t - 1] { 0 } else { 1 }).count();
-                driver_event("Quiesced", entered as i64, live_workers() as i64);
-                flush_run(out, n, tasks, &pan);
-            }
+            _ => {}
         }
     }
+    let target = sent;
+    let mut hang: Option<Value> = None;
+    if let Err(waited) = wait_until(|st| st.cret >= target) {
+        let cret = lock().cret as i64;
+        driver_event("C_Hang", 1, cret);
+        hang = Some(json!({"kind": "hang", "step": done_steps, "action": "finish", "detail": format!("the caller did not get through stop()/drop() after {} s", waited)}));
+    } else if let Err((live, waited)) = {
+        drop(tx);
+        caller.take().map(|c| c.join().ok());
+        let submitted = lock().events.iter().filter(|e| e.ev == "C_Call" && e.a == 2).count();
+        wait_quiescent(1 + *recovery_threads, submitted, &counters)
+    } {
+        driver_event("C_Hang", 2, live as i64);
+        hang = Some(json!({"kind": "hang", "step": done_steps, "action": "exit",
+                           "detail": format!("{} s after drop() returned: {} thread(s) too many, or a submitted task never entered", waited, live)}));
+    } else {
+        // exact counts from the task bodies themselves; judged by TLC (Quiesced.a must equal the number of submitted tasks)
+        let entered = (1..=tasks).filter(|t| counters.ran(*t) == 1 && counters.done(*t) == if pan_flags[*t - 1] { 0 } else { 1 }).count();
+        driver_event("Quiesced", entered as i64, total_threads().saturating_sub(1 + *recovery_threads) as i64);
+    }
+    if diverged.is_some() || hang.is_some() {
+        flush_run(div, n, tasks, &pan);
+    } else {
+        flush_run(out, n, tasks, &pan);
+    }
     let nev = lock().events.len();
-    match fail {
-        None => json!({"id": id, "ok": true, "steps": done_steps, "events": nev}),
-        Some(f) => {
-            let st = lock();
-            let tail: Vec<String> = st.events.iter().rev().take(12).rev().map(|e| format!("{}:{}({},{})", e.th, e.ev, e.a, e.b)).collect();
-            json!({"id": id, "ok": false, "steps": done_steps, "events": nev, "fail": f, "last_events": tail})
-        }
+    let st = lock();
+    let tail: Vec<String> = st.events.iter().rev().take(12).rev().map(|e| format!("{}.{}:{}({},{})", e.g, e.th, e.ev, e.a, e.b)).collect();
+    match (diverged, hang) {
+        (None, None) => json!({"id": id, "ok": true, "steps": done_steps, "events": nev}),
+        (d, h) => json!({"id": id, "ok": false, "steps": done_steps, "events": nev, "diverged": d, "hang": h,
+                         "completed": h.is_none(), "last_events": tail}),
     }
 }
 
 fn gated_mode(args: &[String]) {
     let mut out = std::fs::File::create(&args[0]).expect("create trace file");
+    // logs of runs that left the model's schedule (or hung): judged separately, at the level of the property
+    let mut div = std::fs::File::create(format!("{}.div", args[0])).expect("create trace file");
     let mut ok = 0usize;
     let mut failed = 0usize;
     let mut steps = 0usize;
@@ -1075,14 +1132,18 @@ fn gated_mode(args: &[String]) {
         let b: Value = serde_json::from_str(&line).expect("behaviour json");
         let id = b["id"].as_i64().unwrap_or(read as i64);
         read += 1;
-        let r = run_behaviour(id, &b, &mut out, &mut recovery_threads);
+        let r = run_behaviour(id, &b, &mut out, &mut div, &mut recovery_threads);
         steps += r["steps"].as_u64().unwrap() as usize;
         let good = r["ok"].as_bool().unwrap();
         if !good {
             failed += 1;
             out_line(&r);
-            // threads of this behaviour may still be blocked inside the pool: do not reuse the process
-            break;
+            // a run that did not complete leaves threads blocked inside the pool: do not reuse the process;
+            // three divergences are enough (each may have cost the full escalating wait)
+            if !r["completed"].as_bool().unwrap_or(false) || failed >= 3 {
+                break;
+            }
+            continue;
         }
         ok += 1;
         out_line(&json!({"id": id, "ok": true})); // progress: tells the driver where a crash happened
